@@ -46,10 +46,10 @@ register('C02', title='extrema of narrowband half-waves',
          quick_shards=8, thorough_shards=16)
 
 PIPE_ASSUME = ['integer-typed samples denote real numbers: the reference models compute in float64 (monitors.real)',
+               'domain of C01: >= 4 closed half-waves of each kind in the band-passed signal (three full oscillations) and, after the requested boundary, at least one complete cycle',
                'neurodsp filter_signal / amp_by_time / detect_bursts_dual_threshold are the definitions of band-pass, '
                'analytic amplitude and dual-threshold detector',
-               'domain: signal longer than the FIR filter and >= 3 full oscillations (>= 4 peaks and >= 4 troughs of the '
-               'peak-first half-wave reference after boundary trimming)']
+               'domain: signal longer than every FIR filter the call designs']
 
 register('C01', title='cycle table segmentation',
          deciding=['compute_features', 'compute_shape_features'],
@@ -59,7 +59,9 @@ register('C01', title='cycle table segmentation',
               'sequence of the independent half-wave reference (row count = cycles); an exception inside the domain is a '
               'violation. Non-trivial = table with >= 3 rows and the signal is not a noiseless sine; distinct by SHA-1 of the '
               'materialised case.',
-         floors={'quick': {'nontrivial': 100, 'classes': {'tables_vs_reference': 100}}, 'thorough': {'nontrivial': 5000}},
+         floors={'quick': {'nontrivial': 100, 'classes': {'tables_vs_reference': 100, 'amp_tables_where_the_run_filter_cleared_cycles': 1,
+                                                          'filter_length_kind_switched_between_calls': 5, 'reused_option_dicts': 5}},
+                 'thorough': {'nontrivial': 5000}},
          assumptions=PIPE_ASSUME, quick_shards=8, thorough_shards=16)
 
 register('C04', title='shape features = definitions',
